@@ -1783,3 +1783,55 @@ package desync
 //@   loop 1: invariant len(plan) > 0 ==> plan[0].indexSegment.first == 0 && plan[len(plan)-1].indexSegment.last == r.current - 1
 //@   loop 1: invariant forall k int :: 0 < k && k < len(plan) ==> plan[k].indexSegment.first == plan[k-1].indexSegment.last + 1
 //@   loop 1: invariant forall k int :: 0 <= k && k < len(plan) ==> plan[k].indexSegment.first <= plan[k].indexSegment.last
+
+// ---------------------------------------------------------------------------------------------
+// C01: copying / cloning a seed range into the target writes inside the requested range only, and
+// the head copy, the cloned blocks and the tail copy tile that range.
+
+//@ func CloneRange(dst, src, srcOffset, srcLength, dstOffset) (err)
+//@   pure
+//@   modifies $fv
+//@ func (s *nullChunkSection) copy(dst, offset, length) (r0, r1, r2)
+//@   pure
+//@   modifies $fv
+//@ func (s *fileSeedSegment) copy(dst, src, srcOffset, length, dstOffset) (r0, r1, r2)
+//@   pure
+//@   modifies $fv
+
+//@ ghost var $m int
+//@ ghost var $e int
+//@ func (s *nullChunkSection) clone
+//@   prop C01
+//@   requires blocksize > 0 && blocksize < 1<<32 && offset < 1<<62 && length < 1<<62
+//@   modifies $fv, $m, $e
+//@   oncall copy: requires $arg1 >= offset && $arg1 + $arg2 <= offset + length
+//@   oncall CloneRange: requires $arg4 >= offset && $arg4 + $arg3 <= offset + length
+//# block numbers: blkOffset = $m * blocksize walks from the first whole block to $e, the block the range ends in
+//@   ghost@entry $m = offset/blocksize + 1
+//@   ghost@entry $e = (offset + length)/blocksize
+//@   ghost@loop1.iterend $m = $m + 1
+//@   loop 1: invariant blkOffset == $m * blocksize && dstAlignEnd == $e * blocksize && dstAlignStart >= offset && dstAlignEnd <= offset + length && blkOffset >= dstAlignStart
+
+//@ func (s *fileSeedSegment) clone
+//@   prop C01
+//@   requires blocksize > 0 && blocksize < 1<<32 && srcOffset < 1<<62 && dstOffset < 1<<62 && srcLength < 1<<62
+//@   modifies $fv
+//@   oncall copy: requires $arg4 >= dstOffset && $arg4 + $arg3 <= dstOffset + srcLength && $arg2 >= srcOffset && $arg2 + $arg3 <= srcOffset + srcLength && $arg2 - srcOffset == $arg4 - dstOffset
+//@   oncall CloneRange: requires $arg4 >= dstOffset && $arg4 + $arg3 <= dstOffset + srcLength && $arg2 >= srcOffset && $arg2 + $arg3 <= srcOffset + srcLength && $arg2 - srcOffset == $arg4 - dstOffset
+
+//@ func (s *nullChunkSection) WriteInto
+//@   prop C01
+//@   requires blocksize > 0 && blocksize < 1<<32 && offset < 1<<62 && length < 1<<62
+//@   modifies $fv, $m, $e
+//@   oncall copy: requires $arg1 == offset && $arg2 == length
+//@   oncall clone: requires $arg1 == offset && $arg2 == length
+//# without block cloning nothing is written into a target known to be blank (zeros already)
+//@   ensures !s.canReflink && isBlank ==> $fv == old($fv)
+
+//@ func (s *fileSeedSegment) WriteInto
+//@   prop C01
+//@   safety none
+//@   requires len(s.chunks) > 0 && blocksize > 0 && blocksize < 1<<32 && offset < 1<<62 && length < 1<<62 && s.chunks[0].Start < 1<<62
+//@   modifies $fv
+//@   oncall copy: requires $arg2 == s.chunks[0].Start && $arg3 == length && $arg4 == offset
+//@   oncall clone: requires $arg2 == s.chunks[0].Start && $arg3 == length && $arg4 == offset && $arg5 == blocksize
